@@ -2092,7 +2092,7 @@ UNDER_THEOREM = {
     "create_artifact_resolve": "c13_artifact_resolve_valid",
     "metadata.entity_descriptor (EntityDescriptor shell + do_organization_info; role descriptors, contacts and "
     "Extensions content as serialised)": "c13_entity_descriptor_valid",
-    "create_name_id_mapping_response": "c13_name_id_mapping_response_refuted / _never_valid (finding C13-F1)",
+    "create_name_id_mapping_response": "c13_name_id_mapping_response_valid (after fix 04928d2a; the pinned snapshot: _v0_refuted / _v0_never_valid)",
     "s_utils.sid / time_util.instant": "c13_sid_lexical, c13_instant_lexical",
     "SamlBase._to_element_tree (every class, every object)": "c13_serialiser + c13_table_consistent",
 }
